@@ -31,7 +31,8 @@ THEOREMS = ["Mpir.DcDivappr." + t for t in """
 dcDivappr_floor2_small dcDivappr_floor2 dcDivappr_far_off dcDivappr_repaired_examples
 dc_divappr_q_contract dc_divappr_q_remainder sb_divappr_q_remainder dc_divappr_q_ok dc_div_q_exact
 """.split()]
-PINS = [("mpn/generic/dc_divappr_q.c", None), ("mpn/generic/sb_divappr_q.c", None), ("mpn/generic/dc_div_q.c", None)]
+PINS = [("mpn/generic/dc_divappr_q.c", None), ("mpn/generic/sb_divappr_q.c", "__divappr_helper"), ("mpn/generic/sb_divappr_q.c", None),
+        ("mpn/generic/dc_div_q.c", None)]
 TRUSTED = ["hand-written value-level model lean/Mpir/Model/DcDivappr.lean of mpn_dc_divappr_q (limb areas as naturals with explicit "
            "limb counts; the footprint 'a call writes only np[dn-2 ..] of its window and leaves the truncated remainder in np[dn-2 .. dn]' "
            "is part of the model; tied by correspondence on every run: quotient, those three limbs and qh compared verbatim)",
